@@ -6,14 +6,14 @@ namespace TsVerif.C03
 
 /-- the top operator of `e` (if it is a binary node) was allowed to continue under `ctx` -/
 def topOK (t : OpTable) (ctx : PCtx) : ETree → Bool
-  | .bin k _ _ => shouldShift ctx (t.binLevel k)
-  | .post k _ => shouldShift ctx (t.postLevel k)
+  | .bin k _ _ => shouldShift ctx (t.binIn k)
+  | .post k _ => shouldShift ctx (t.postIn k)
   | _ => true
 
 /-- `l` may be the left operand of an operator of level `p`: whatever operator is at the top of `l`
 was completed (reduced) when that operator arrived, i.e. it was not allowed to continue under it
 (a postfix operator at the top of `l` is complete by itself) -/
-def leftOK (t : OpTable) (p : Int) : ETree → Bool
+def leftOK (t : OpTable) (p : List Int) : ETree → Bool
   | .bin k1 _ _ => !shouldShift (some (t.binLevel k1, t.binRight k1)) p
   | .un u _ => !shouldShift (some (t.unLevel u, false)) p
   | _ => true
@@ -24,8 +24,8 @@ def Respects (t : OpTable) : ETree → Bool
   | .paren e => Respects t e
   | .un u e => Respects t e && topOK t (some (t.unLevel u, false)) e
   | .bin k l r => Respects t l && Respects t r && topOK t (some (t.binLevel k, t.binRight k)) r &&
-      leftOK t (t.binLevel k) l
-  | .post k e => Respects t e && leftOK t (t.postLevel k) e
+      leftOK t (t.binIn k) l
+  | .post k e => Respects t e && leftOK t (t.postIn k) e
 
 /-- produced by the operator loop (a binary or postfix node) rather than by the prefix parser -/
 def isBin : ETree → Bool
@@ -34,13 +34,13 @@ def isBin : ETree → Bool
   | _ => false
 
 def Declined (t : OpTable) (ctx : PCtx) (rest : List OpTok) : Prop :=
-  (∀ k r, rest = .bin k :: r → shouldShift ctx (t.binLevel k) = false) ∧
-  (∀ k r, rest = .post k :: r → shouldShift ctx (t.postLevel k) = false)
+  (∀ k r, rest = .bin k :: r → shouldShift ctx (t.binIn k) = false) ∧
+  (∀ k r, rest = .post k :: r → shouldShift ctx (t.postIn k) = false)
 
 /-- the operand to the left of whatever operator comes next is complete -/
 def LeftReady (t : OpTable) (e : ETree) (rest : List OpTok) : Prop :=
-  (∀ k r, rest = .bin k :: r → leftOK t (t.binLevel k) e = true) ∧
-  (∀ k r, rest = .post k :: r → leftOK t (t.postLevel k) e = true)
+  (∀ k r, rest = .bin k :: r → leftOK t (t.binIn k) e = true) ∧
+  (∀ k r, rest = .post k :: r → leftOK t (t.postIn k) e = true)
 
 structure ExprPost (t : OpTable) (ctx : PCtx) (toks : List OpTok) (e : ETree) (rest : List OpTok) : Prop where
   yield : toks = e.yield ++ rest
